@@ -45,6 +45,10 @@ def consts_of(scn):
             execs.append(allp[op["p"]]["flavour"])
         elif o == "bg" and not seen_accept:
             pre.add(op["inner"]["p"])
+        elif o == "race_adopts" and not seen_accept:
+            pre.update(op["ps"])
+            if op.get("with_accept"):
+                seen_accept = True
     return {
         "payloads": sorted(allp),
         "flav": {p: allp[p]["flavour"] for p in allp},
@@ -344,7 +348,7 @@ def run_family(ctx, shapes, *, names, allow, mc_invariants, mc_properties, per_s
     def mc(i):
         base = shapes[i]
         c = consts_of({"payloads": base["payloads"], "services": base.get("services", {}), "script": base["proto_script"]})
-        r = model_check(c, "MC%s%d" % (label, i), mc_invariants, mc_properties, allow=allow, workers=4)
+        r = model_check(c, "MC%s%d" % (label, i), mc_invariants, [] if base.get("mc_light") else mc_properties, allow=allow, workers=4)
         s, _ = simulate_scripts(c, "Sim%s%d" % (label, i), allow, num=per_shape * 3, depth=depth, seed=ctx.seed + i)
         return c, r, s
 
@@ -410,6 +414,24 @@ def fingerprint(name, scn, ev, idx):
     if name in ("CleanupBeforeEnd", "NoStepAfterEnd", "TerminationObserved", "FailStopSafe", "CauseFaithful", "FailStopObserved"):
         ret = next((x for x in ev if x["e"] == "AcceptRet" and x.get("r") == 1), None)
         fp["accept_exc"] = ret.get("exc", "") if ret else "(still running)"
+    if name == "CleanupBeforeEnd":
+        # which coroutine payloads were started but not finished when accept() ended, and were
+        # they all adopted only after termination had been triggered?
+        allp = {**scn["payloads"], **scn.get("services", {})}
+        trig = next((i for i, x in enumerate(ev) if x["e"] in ("Sigint", "ShutdownCall") or (x["e"] == "End" and x.get("how") not in ("none",))), len(ev))
+        end = next((i for i, x in enumerate(ev) if x["e"] == "AcceptRet" and x.get("r") == 1), len(ev))
+        started, finished, adopted_at = set(), set(), {}
+        for i, x in enumerate(ev[:end]):
+            if x["e"] in ("AdoptCall", "SvcNew"):
+                adopted_at[x["p"]] = i
+            elif x["e"] == "Start":
+                started.add(x["p"])
+            elif x["e"] in ("End", "CleanupDone"):
+                finished.add(x["p"])
+            elif x["e"] == "Cancelled" and not (allp.get(x["p"], {}).get("cleanup", 0) + allp.get(x["p"], {}).get("shielded", 0)):
+                finished.add(x["p"])
+        open_ = [p for p in started - finished if allp.get(p, {}).get("flavour") != "threading"]
+        fp["late_adopt"] = bool(open_) and all(adopted_at.get(p, -1) > trig for p in open_)
     if e.get("e") == "AdoptRet" and not e.get("ok", True):
         fp["exception"] = e.get("exc", "")
         p = e.get("p")
